@@ -91,6 +91,22 @@ pub enum WalRecord {
         /// Transaction ID at checkpoint.
         tx_id: TxId,
     },
+
+    /// Remove a property from a node.
+    RemoveNodeProperty {
+        /// Node ID.
+        id: NodeId,
+        /// Property key.
+        key: String,
+    },
+
+    /// Remove a property from an edge.
+    RemoveEdgeProperty {
+        /// Edge ID.
+        id: EdgeId,
+        /// Property key.
+        key: String,
+    },
 }
 
 #[cfg(test)]
